@@ -20,10 +20,19 @@ executions).  Binding:
                     mutated deltas on larger bases, larger id tables, tree pairs, blobs) are run
                     on both implementations, recorded as ndjson and judged by TLC (EquivTrace):
                     ObsEq(py, rs) and agreement of each side with the reference.
+                    Pairs too large for TLC's byte-level decoder (copy sizes of 2 bytes, runs above
+                    64 KiB, offsets of 2-3 bytes) go through all four encoder x decoder pairings of
+                    the real code with the target itself as the specification.
   E  end to end     repository-level scenario (commit_tree, tree_changes with rename detection,
                     pack write + read with deltas incl. a pack made by C git, index lookups by
-                    bisection, commits in an on-disk repository) once with and once without the
-                    extensions; results compared.
+                    bisection, commits in an on-disk repository + pack_loose_objects) once with and
+                    once without the extensions; results compared.
+  G  C git          validates the *specification*: on a sample of the recorded tree payloads
+                    `git ls-tree` must accept exactly what ParseTree accepts and list the same names
+                    and ids (outside three documented differences); disagreement = machinery failure.
+  N  controls       model level: TLC must report the lemma violated in two defect models (a name
+                    with '/', a model of Python's int()); binding level: ten corrupted recorded
+                    executions must be refused by EquivTrace.
 
 VIOLATION = the two implementations differ on an input (signature: blamed site | clause | class).
 Both agreeing with each other but not with the reference is SPEC-DRIFT (never an alarm).
@@ -891,6 +900,9 @@ def phase_negative_controls(ctx):
 
 # =========================================================================== run / replay
 def run(ctx):
+    for name in os.listdir(ctx.replay_dir):          # replay files of earlier runs of this check
+        if name.endswith(".json"):
+            os.remove(os.path.join(ctx.replay_dir, name))
     rustext.build()
     ctx.cov["rule"] = ("a case is non-trivial when at least one implementation or the reference semantics yields a value "
                        "for at least one variant of the call (not: failure everywhere)")
@@ -942,8 +954,7 @@ def replay(ctx, path):
             print(f"  STILL DIFFERENT: {sig}\n    {what}")
         if not fnd.best:
             print("  the repository-level results are identical now")
-        fnd.flush()
-        return 1 if ctx.violations else 0
+        return 1 if fnd.best else 0
     fam, inp = obj["fam"], obj["inp"]
     if obj.get("origin") == "large pair" and (len(inp) != 2 or not all(isinstance(x, str) for x in inp) or inp[1] in MODES):
         # the pair is too large for the replay file: regenerate the structured large pairs
